@@ -179,13 +179,13 @@ func (r *Stats) ReportTimer(name string, tags map[string]string, interval time.D
 func (r *Stats) ReportHistogramValueSamples(name string, tags map[string]string, buckets tally.Buckets, lo, hi float64, samples int64) {
 	r.L.call("rep:hvalue")
 	t, p, n := copyTags(tags)
-	r.L.add(Event{Thread: r.Child, Kind: KHValue, Name: name, Tags: t, TagsPtr: p, TagsNil: n, Spec: buckets, Lo: lo, Hi: hi, I: samples})
+	r.L.add(Event{Thread: r.Child, Kind: KHValue, Name: name, Tags: t, TagsPtr: p, TagsNil: n, Spec: snapSpec(buckets), Lo: lo, Hi: hi, I: samples})
 }
 
 func (r *Stats) ReportHistogramDurationSamples(name string, tags map[string]string, buckets tally.Buckets, lo, hi time.Duration, samples int64) {
 	r.L.call("rep:hduration")
 	t, p, n := copyTags(tags)
-	r.L.add(Event{Thread: r.Child, Kind: KHDuration, Name: name, Tags: t, TagsPtr: p, TagsNil: n, Spec: buckets, DLo: lo, DHi: hi, I: samples})
+	r.L.add(Event{Thread: r.Child, Kind: KHDuration, Name: name, Tags: t, TagsPtr: p, TagsNil: n, Spec: snapSpec(buckets), DLo: lo, DHi: hi, I: samples})
 }
 
 type caps struct{ r, t bool }
@@ -252,6 +252,7 @@ func (r *Cached) alloc(kind, name string, tags map[string]string, spec tally.Buc
 	t, p, n := copyTags(tags)
 	r.mu.Lock()
 	r.nextH++
+	spec = snapSpec(spec)
 	h := HandleInfo{ID: r.nextH, Kind: kind, Name: name, Tags: t, Spec: spec}
 	r.Handles = append(r.Handles, h)
 	r.mu.Unlock()
@@ -371,4 +372,23 @@ func (r CachedCloser) Close() error {
 // the shape is still recognisable by its length and prefix "tally").
 func IsInternal(name string) bool {
 	return strings.HasPrefix(name, "tally") && (strings.HasSuffix(name, "cardinality") || strings.HasSuffix(name, "num_active_scopes"))
+}
+
+// snapSpec copies a specification of one of the built-in bucket types at the
+// moment of the reporter call: a real reporter consumes it synchronously, and
+// the recording must not follow a slice that its owner rewrites later.
+func snapSpec(b tally.Buckets) tally.Buckets {
+	switch v := b.(type) {
+	case tally.ValueBuckets:
+		if v == nil {
+			return v
+		}
+		return append(tally.ValueBuckets{}, v...)
+	case tally.DurationBuckets:
+		if v == nil {
+			return v
+		}
+		return append(tally.DurationBuckets{}, v...)
+	}
+	return b
 }
